@@ -144,6 +144,18 @@ CLAIMS["C14"] = dict(
     technique="Coq proof (History.history_independent, abstract non-interference) + history exploration against fresh processes (U10)",
     design="6/C14")
 
+CLAIMS["C16"] = dict(
+    text="PARTIAL. A verified analysis (Sign.v): whenever it accepts a rule body, every value the rule returns is a finite, non-negative "
+         "number (or a bool) for all finite non-negative arguments — soundness proved for expressions and statements of the deep "
+         "embedding (constants, parameter leaves of the date, + * /, comparisons, and/or/not, conditional expressions, two-argument "
+         "min/max, assignments, augmented + and *, if/else, return). Obligation regenerated every run for every date class >= 2015: "
+         "the 134 nodes of c16_baseline.json are proved (rules by the analysis on the regenerated ASTs, derived nodes by closure, rounding "
+         "by round_nonneg). Caps: theorems on the closed forms of the three final benefit rules (tied to the ASTs under C17) and of the "
+         "contribution schedule (C19). The remaining nodes, incl. most default targets (subtractions, schedules), are covered by the "
+         "corner sweeps of the real engine only: every numeric column finite, default targets >= 0, caps respected.",
+    technique="Coq proof (Sign.nn_s_sound; cap theorems) + reflective analysis of regenerated rule ASTs per date class + corner sweeps of the real engine",
+    design="6/C16")
+
 CLAIMS["C17"] = dict(
     text="Theorem over per-person records (priority flags of the person's bg, household pensioner indicators, wthh = hh*100 + flag, `any` "
          "aggregates over the part-household, the three final rules in closed form): ALG II > 0 => Wohngeld = 0 and Kinderzuschlag = 0; "
